@@ -51,7 +51,7 @@ ASSUMPTIONS = [
 SIMPLE = ['on', 'off', 'fade', 'night-light', 'all_off', 'reading', 'a1',
           'stop-current', 'stop-all', 'tv2x_mode', 'b2b-lights']
 HOSTILE = ['<b>x</b>', 'a&b', 'tom&jerry', '"quoted"', "it's", '../secret',
-           'dir/file', 'a b', '<script>alert(1)</script>', '&amp;', 'x>y',
+           'dir/file', 'mood/night/late_show', 'a/b/c/deep', 'a b', '<script>alert(1)</script>', '&amp;', 'x>y',
            'é', '..', 'a%20b']
 
 
